@@ -333,7 +333,7 @@ func (w *world) create(isDoc bool, flds, set []string) string {
 		// JSON objects and integers beyond 32 bits cannot be written as GraphQL literals
 		hasJSON = hasJSON || f == "j" || f == "n" || f == "pts"
 	}
-	if w.caseID%3 == 0 && !hasJSON {
+	if w.caseID%3 == 0 && !hasJSON && len(set) > 0 {
 		// through a GraphQL create with a list input: a first document that sets none of the fields, then ours
 		var gparts []string
 		for _, f := range set {
